@@ -272,6 +272,7 @@ func runC07(c *core.Ctx) core.Meta {
 	c.Load(emuPkg, cuPkg, "amd/timing/wavefront", instsPkg)
 	c.BuildSSA()
 	checkEndedWavefrontReleasesRegisters(c)
+	checkOperandDecodedFromOwnBytes(c, emuPkg, "amd/timing/wavefront")
 	prov := core.NewProv(c)
 
 	// ---------------- R07.7 register reads hand out their own bytes (fresh.go) ----------------
